@@ -726,7 +726,7 @@ impl<T: CanonicalDeserialize> CanonicalDeserialize for LinkedList<T> {
         compress: Compress,
         validate: Validate,
     ) -> Result<Self, SerializationError> {
-        let len = u64::deserialize_with_mode(&mut reader, compress, validate)?
+        let len: usize = u64::deserialize_with_mode(&mut reader, compress, validate)?
             .try_into()
             .map_err(|_| SerializationError::NotEnoughSpace)?;
         let mut values = Self::new();
